@@ -222,3 +222,37 @@ def driver_normal_form(src: str, e: Emitted) -> str:
                      (e.action_enum, 'ACTION'), (e.start_type, 'STARTTYPE'), (e.term_enum, 'TERMENUM'), (eof, 'EOF')]:
         text = re.sub(r'\b%s\b' % re.escape(name), ph, text)
     return text
+
+
+def check_glue(src: str, e: Emitted):
+    """The per-grammar glue between tokens, kinds and nodes must be the identity mapping the
+    table model assumes: terminal X -> kind X -> node X -> payload of X; nonterminal N <- node N."""
+    terms = e.qkinds[:-1]
+    m = _need(re.search(r'    fn from_terminal\(terminal: &%s\) -> Self \{\n        match terminal \{\n(.*?)\n        \}\n    \}' %
+                        re.escape(e.term_enum), src, re.S), 'QuasiterminalKind::from_terminal')
+    arms = [l.strip() for l in m.group(1).split('\n') if l.strip()]
+    want = ['%s::%s(_) => Self::%s,' % (e.term_enum, t, t) for t in terms]
+    if arms != want:
+        raise ExtractError('kind-of-terminal mapping is not the identity: %r' % arms[:4])
+    m = _need(re.search(r'    fn from_terminal\(terminal: %s\) -> Self \{\n        match terminal \{\n(.*?)\n        \}\n    \}' %
+                        re.escape(e.term_enum), src, re.S), 'Node::from_terminal')
+    arms = [l.strip() for l in m.group(1).split('\n') if l.strip()]
+    want = ['%s::%s(t) => Self::%s(t),' % (e.term_enum, t, t) for t in terms]
+    if arms != want:
+        raise ExtractError('node-of-terminal mapping is not the identity: %r' % arms[:4])
+    for n in e.nkinds:
+        if not re.search(r'impl TryFrom<%s> for %s \{\n    type Error = %s;\n\n    fn try_from\(node: %s\) -> Result<Self, Self::Error> \{\n'
+                         r'        match node \{\n            %s::%s\(n\) => Ok\(n\),\n            _ => Err\(node\),' %
+                         (re.escape(e.node_enum), re.escape(n), re.escape(e.node_enum), re.escape(e.node_enum), re.escape(e.node_enum), re.escape(n)), src):
+            raise ExtractError('TryFrom<Node> for %s is not the expected projection' % n)
+    if len(e.term_methods) != len(terms) or sorted(e.term_methods.values()) != list(range(len(terms))):
+        raise ExtractError('try_into_<terminal> methods are not one per terminal')
+    for meth, ti in e.term_methods.items():
+        if not re.search(r'fn %s\(self\) -> Result<.*?, Self> \{\n\s*match self \{\n\s*Self::%s\(t\) => Ok\(t\),\n\s*_ => Err\(self\),' %
+                         (re.escape(meth), re.escape(terms[ti])), src):
+            raise ExtractError('method %s is not the expected projection' % meth)
+    # node enum: nonterminals then terminals
+    vs = _enum_variants(src, e.node_enum, numbered=False)
+    names = [re.match(r'(\w+)\(', v).group(1) for v in vs]
+    if names != e.nkinds + terms:
+        raise ExtractError('Node enum variants differ from kinds')
